@@ -705,6 +705,39 @@ def c11_case(acc, sp, kw, rng, tier, xproc=None, twin=False):
         T = F.step(i, F.seed_for(i, rng.random() < 0.85, rng))
         if T.raised:
             break
+    # ---- the mapping after the episodes: attacks repeated on hosts that are
+    # already compromised, then every index looked up again
+    if len(theirs) == len(mine):
+        S = F.lay.status(F.current().tensor)
+        again = [i for i, d in enumerate(mine) if d["kind"] == EXPLOIT and
+                 S[0][F.model.row[d["target"]]]]
+        rng.shuffle(again)
+        for i in again[:12]:
+            T = F.step(i, F.seed_for(i, rng.random() < 0.85, rng))
+            acc.count("exploits_repeated_on_compromised_hosts")
+            if T.raised:
+                break
+        acc.evaluations += 1
+        live = F.env.action_space.actions
+        sig_after = [action_signature(F.env.action_space.get_action(i))
+                     for i in range(len(live))]
+        F3 = Subject(sp, flat_actions=True, scenario=F.scenario,
+                     route=kw.get("route"))
+        sig_new = [action_signature(a) for a in F3.env.action_space.actions]
+        for what, sg in (("same environment after its episodes", sig_after),
+                         ("environment built after the episodes", sig_new)):
+            if sg != sig_theirs:
+                j = next((j for j in range(min(len(sg), len(sig_theirs)))
+                          if sg[j] != sig_theirs[j]), None)
+                acc.violation(
+                    "mapping_changed_by_stepping",
+                    "mapping_changed_by_stepping",
+                    {"which": what, "index": j,
+                     "before": sig_theirs[j] if j is not None else None,
+                     "after": sg[j] if j is not None else None},
+                    W("mapping after episodes"))
+                break
+        acc.count("mappings_rechecked_after_episodes")
     # ---- parameterised space
     P = Subject(sp, flat_actions=False, scenario=F.scenario,
                 route=kw.get("route"))
